@@ -24,7 +24,7 @@ CHECKS = {
     "C09": (
         "exploration",
         "event-log monitor: instrumented input iterator + submit/complete events of the check-owned backend; withheld completions released one at a time, failure/close followed by late completions, free-running and adversarial start-phase schedules",
-        "With every completion withheld the number of items taken must stop by itself at the pre-dispatch amount (all of them for 'all'); releasing one batch at a time, pulled-completed must stay within G = B0*b + b*n_jobs, in-flight batches within B0 and each completion may let at most one slice through; after a registered failure (also one delivered while the caller is still in its initial dispatch loop) or a closed generator no further item may be taken whatever completes later; free-running seeded schedules check the same invariants at every pull with stolen in-flight slots accounted, and re-entrancy of the input.",
+        "With every completion withheld the number of items taken must stop by itself at the pre-dispatch amount (all of them for 'all'); releasing one batch at a time, pulled-completed must stay within G = B0*b + b*n_jobs, in-flight batches within B0 and each completion may let at most one slice through; after a registered failure (also one delivered while the caller is still in its initial dispatch loop) or a closed generator no further item may be taken whatever completes later; free-running seeded schedules check the same invariants at every pull with stolen in-flight slots accounted, and re-entrancy of the input. On real pools (threading, loky, multiprocessing) one pre-dispatched task fails - by raising or in transport (unpicklable result / exception / argument) - while every other task is held behind a gate file: the call must raise with exactly the pre-dispatched items taken; and a generator closed from another thread, with joblib's detached clean-up thread held back, must not take a further item once close() has returned.",
         "G is derived from the dispatch arithmetic (confirmed on the tree); the start-phase steal is recorded as a known finding and tolerated only within its accounting.",
         "3/C09", "scripted-backend"),
     "C15": (
@@ -66,7 +66,7 @@ CHECKS = {
     "C11": (
         "exploration",
         "turn-based scheduling of real processes at file-system-call granularity (LD_PRELOAD interposer + coordinator): seeded PCT-like schedules with <= 3 pre-emptions and random walks over call / reduce_size / clear / observer participants",
-        "2-4 participant processes (some with two threads) run short scripts of cached calls, call_and_shelve, reduce_size, Memory.clear / func.clear and a read-only observer on one cache directory; every watched libc call (reads, stats and directory listings included) blocks until the coordinator grants the turn, so the interleaving is chosen by the check and recorded (its hash is the unit of distinct schedules). Every cached call must return a valid value and must not raise; whatever is visible under a final name, at any scheduled instant (observer) and at the end, must be one complete result - results are writer-specific so a mixture cannot be valid.",
+        "2-4 participant processes (some with two threads) run short scripts of cached calls, call_and_shelve, reduce_size, Memory.clear / func.clear and a read-only observer on one cache directory; every watched libc call (reads, stats and directory listings included) blocks until the coordinator grants the turn, so the interleaving is chosen by the check and recorded (its hash is the unit of distinct schedules). Every cached call must return a valid value and must not raise; whatever is visible under a final name, at any scheduled instant (observer) and at the end, must be one complete result - results are writer-specific so a mixture cannot be valid. Thread storms (2-4 calling threads, 1-2 disturbers of one process, identically named in a third of the rounds, sys.monitoring pre-emption inside joblib's memory / store modules) add the races no file-system call separates; every result file left at the end of a round is read back, and a logging handler classifies every load joblib silently recovered from (vanished entry: fine; unreadable content: a reader saw an incomplete file under its final name).",
         "File-system calls are serialised: races inside one call's kernel execution are not explored. Participants silent for 0.6 s are skipped, never forced. Exceptions inside clear()/reduce_size() themselves are observations only.",
         "3/C11", "fsshim"),
     "C06": (
@@ -85,18 +85,18 @@ CHECKS = {
         "exploration",
         "cross-process differential monitor: K interpreters with different PYTHONHASHSEED rebuild a seeded value universe in permuted insertion orders; digests compared per value and digest->canonical-form injectivity checked over the whole universe",
         "joblib.hash is executed on every value of a seeded recursive universe (plus the explicit near-colliding pairs of the statement) in 4 (quick) / 8 (thorough) interpreter processes with different string-hash seeds, each with two insertion-order permutations and with shared vs distinct equal strings, md5 and sha1; all digests of a value must agree and distinct canonical forms must get distinct digests (all pairs, by grouping).",
-        "Canonical form defines 'same value'; aliased sub-objects, NaN in sets and ==-equal keys of different type in one container are excluded by the statement; user classes and numpy arrays are not in this universe.",
+        "Canonical form defines 'same value'; aliased sub-objects, NaN in sets and ==-equal keys of different type in one container are excluded by the statement; instances of dict / set / frozenset subclasses and Decimal leaves are in the universe; a numpy family (dtypes, numpy scalars, C / Fortran arrays, zero arrays sharing bytes across dtypes and shapes) is hashed in processes with numpy loaded, and one process of every other value has numpy loaded too (NumpyHasher must agree with Hasher).",
         "3/C08", "objuniverse"),
     "C10": (
         "fault_enumeration",
         "fault injection into real loky workers (victims x signal x life-cycle instant, incl. death while the result message is partly written via the interposer's pipekill mode), one subprocess session per history, hang classification from paired stack dumps",
-        "Histories of 2-5 Parallel calls on the loky backend (with / without a with block, n_jobs 2-4) get one injected worker death: SIGKILL / SIGSEGV / os._exit / SIGTERM at argument unpickling, task start, mid-task, task end, result pickling, while the result message is being written (small and large), while idle between calls, or during the next call's start-up. Each call must return exactly the expected list or raise a BrokenProcessPool subclass, at most one call may fail per fault, the following call must be exact and computed by live pids, and the history must finish within the watchdog - a run that does not is a hang only when two stack dumps 10-15 s apart are identical.",
+        "Histories of 2-5 Parallel calls on the loky backend (with / without a with block, n_jobs 2-4) get one injected worker death: SIGKILL / SIGSEGV / os._exit / SIGTERM at argument unpickling, task start, mid-task, task end, result pickling, while the result message is being written (small and large), while idle between calls, or during the next call's start-up, a resize or a graceful replacement of the executor, or after every worker idled out; task arguments range up to 1.5 MB (the call queue's feeder thread is then blocked in a write when the worker dies). Each call must return exactly the expected list or raise a BrokenProcessPool subclass, at most one call may fail per fault, the following call must be exact and computed by live pids, and the history must finish within the watchdog - a run that does not is a hang only when two stack dumps 10-15 s apart are identical.",
         "Quick enumerates every instant x signal once; the cross product with victims / n_jobs / call position is sampled in thorough. Wall-clock only produces inconclusive verdicts; the known hang (partial result message) is keyed by the blocked frame, not by the instant.",
         "3/C10", "fsshim"),
     "C12": (
         "exploration",
         "history monitor: executed define/call histories over same-named function versions that return their own tag and log their executions; in-session (exec'd cells, lambdas, nested, module reload, __code__ swaps incl. forced id reuse) and across fresh processes sharing the cache",
-        "Histories of define(version k) / call(live version j, argument a) over <= 3 versions are enumerated exhaustively up to length 4 (quick) / 5 (thorough) and sampled up to length 12 in five same-session styles, and run as sequences of fresh processes (module file or __main__ script rewritten between sessions, including sessions that change nothing). Every call must return the tag of the code that was called and execute nothing else; a session whose code did not change must not recompute entries that existed.",
+        "Histories of define(version k) / call(live version j, argument a) over <= 3 versions are enumerated exhaustively up to length 4 (quick) / 5 (thorough) and sampled up to length 12 in five same-session styles, and run as sequences of fresh processes (module file or __main__ script rewritten between sessions, including sessions that change nothing). Every call must return the tag of the code that was called and execute nothing else; a session whose code did not change must not recompute entries that existed. A third of the in-session calls go through a cloudpickled copy of the wrapper; module sessions have their source file rewritten between import and first call in part of the version changes; a live older process is interleaved with fresh ones.",
         "Source is what joblib reads from disk: in the reload style each definition is called once before the next rewrite; closures differing only in captured values are outside the statement.",
         "3/C12", "harness"),
     "C13": (
